@@ -19,7 +19,7 @@ class C17(L1Prop):
                    "flags/variables, and with an oracle written from the property text (addresses served, allow-list enforced, "
                    "snapshot targets applied, history identical after restart).")
     rule = ("configurations of the real executable: 1-3 listen addresses (one comma-delimited flag / repeated flags / "
-            "LISTEN), data directory (flag / DATA_DIR / flag over env), allow-list (none / one / many; flag, repeated flags, "
+            "LISTEN), data directory (flag / DATA_DIR / flag over env; ASCII names and names that are not valid UTF-8), allow-list (none / one / many; flag, repeated flags, "
             "CLIENT_ID), snapshot-versions and snapshot-days in {1,2,3,default,large} by flag or environment variable (and flag "
             "over env); the process is started, a history is sent round-robin to EVERY address over raw TCP (chunked bodies "
             "included), killed with SIGKILL, restarted on the same directory and the history re-read; non-trivial = "
@@ -31,7 +31,7 @@ class C17(L1Prop):
             r = random.Random(rng.getrandbits(32))
             nl = r.choice([1, 2, 3])
             lsrc = r.choice(["flag", "flags", "env"])
-            dsrc = r.choice(["flag", "env", "both"])
+            dsrc = r.choice(["flag", "env", "both", "flag8", "env8"]) if k % 3 else ["flag8", "env8", "both"][(k // 3) % 3]
             allow = r.choice(["none", "none", "flag:1", "flags:1,2", "env:2", "env:1,2,3", "flag:1,2"])
             vk = r.choice([1, 2, 3, 5])
             vsrc = r.choice(["default", f"flag:{vk}", f"env:{vk}", f"both:{vk}/{vk + 7}"])
@@ -53,7 +53,7 @@ class C17(L1Prop):
                 ops += [f"backdate {c} {r.choice([1, 2, 3, 5, 14, 21]) * 86400 + 3600}", f"dump {c}",
                         f"{at()} POST av hyph=latest:{c} hyph={c} history b:4", f"{at()} GET gcv hyph=nil hyph={c} absent e",
                         f"{at()} GET snap - hyph={c} absent e", f"walk {c}"]
-            ops += [f"{at()} GET index - absent absent e", "kill", "restart"]
+            ops += [f"{at()} GET index - absent absent e", "dirstat", "kill", "restart"]
             for c in (1, 2, 3):
                 ops += [f"walk {c}", f"{at()} GET snap - hyph={c} absent e", f"{at()} POST av hyph=latest:{c} hyph={c} history b:5"]
             out.append(Case(f"c17-{k}", ops, {"boot": boot, "nl": nl, "allow": allow, "versions": vsrc, "days": ysrc}, mode="bin"))
@@ -99,6 +99,10 @@ class C17(L1Prop):
                                 fails.append(f"op {i}: urgency {got}, expected {sorted(want)} for configured snapshot-versions={versions} snapshot-days={days} (record {d.snap})")
                 if r.cc != "1":
                     fails.append(f"op {i}: response without Cache-Control no-store")
+            if o.startswith("mark datadir"):
+                kv = dict(x.split("=") for x in o.split()[2:])
+                if kv.get("dbfile") != "1" or kv.get("extra") != "0":
+                    fails.append(f"the data is not kept in the configured directory ({m['boot']}): database file present there = {kv.get('dbfile')}, other entries created next to it = {kv.get('extra')}")
             if o.startswith("mark walk"):
                 c = o.split()[2]
                 seq = []
